@@ -275,6 +275,31 @@ pub fn generate(kind: &str, tier: &str, seed: u64, shard: u64, nshards: u64, pat
                 }
                 t.emit(&enc_event(&vec![]));
                 t.emit(&enc_event(&vec![Amf0Value::StrictArray(vec![Amf0Value::Null; 400])]));
+                // strings and names with NUL / whitespace at either end (nothing may be trimmed)
+                for st in ["\u{0}", "a\u{0}", "\u{0}a", "a\u{0}\u{0}", " a ", "a\n", "\t", "\u{feff}a", "a\u{0}b"].iter() {
+                    let mut p = HashMap::new();
+                    p.insert(st.to_string(), Amf0Value::Utf8String(st.to_string()));
+                    t.emit(&enc_event(&vec![Amf0Value::Utf8String(st.to_string()), Amf0Value::Object(p), Amf0Value::StrictArray(vec![Amf0Value::Utf8String(st.to_string())])]));
+                }
+                // long flat sequences of EMPTY containers followed by a nested one (depth is about nesting, not about count)
+                for n in [255usize, 256, 257, 600].iter() {
+                    let mut v: Vec<Amf0Value> = vec![Amf0Value::StrictArray(vec![]); *n];
+                    v.push(nest(&mut rng, 3));
+                    t.emit(&enc_event(&v));
+                    let mut v: Vec<Amf0Value> = vec![Amf0Value::Object(HashMap::new()); *n];
+                    v.push(nest(&mut rng, 3));
+                    t.emit(&enc_event(&v));
+                    t.emit(&enc_event(&vec![Amf0Value::StrictArray(vec![Amf0Value::StrictArray(vec![]); *n]), nest(&mut rng, 2)]));
+                }
+                // an encode that fails half way, then ordinary ones: nothing of the failed call may leak into the next
+                for _ in 0..3 {
+                    t.emit(&enc_event(&vec![Amf0Value::Number(1.0), Amf0Value::Boolean(true), Amf0Value::Utf8String("z".repeat(65536))]));
+                    t.emit(&enc_event(&vec![Amf0Value::Null]));
+                    let mut p = HashMap::new();
+                    p.insert("".to_string(), Amf0Value::Null);
+                    t.emit(&enc_event(&vec![Amf0Value::Utf8String("before".into()), Amf0Value::Object(p)]));
+                    t.emit(&enc_event(&vec![Amf0Value::Utf8String("after".into())]));
+                }
                 cases += 40;
             }
             for _ in 0..(150 * scale / nshards as usize + 1) {
